@@ -784,15 +784,34 @@ fn step(run: &mut Run, i: usize, op: &Value, last: &mut [usize; 3]) -> Value {
             let (uri_s, twin_s) = run.files.get(&of).cloned().unwrap_or(("sqlite:///nonexistent/c19.db".into(), "sqlite:///nonexistent/c19.db".into()));
             let uri_v = if op["uri"].is_null() { Value::Null } else { json!(uri_s) };
             let (uri, method, pass) = (cstr_arg(&uri_v), cstr_arg(&op["method"]), cstr_arg(&op["pass"]));
-            let ret = unsafe { askar_store_open(uri.ptr, method.ptr, pass.ptr, std::ptr::null(), if cb_given { Some(cb_handle) } else { None }, id) };
             let parsed: Option<Option<StoreKeyMethod>> = match op["method"].as_str() { Some(m) => StoreKeyMethod::parse_uri(m).ok().map(Some), None => Some(None) };
             let malformed = !cb_given || op["uri"].is_null() || parsed.is_none();
-            let (ret, cb) = run.finish(i, op, ret, id, cb_given);
+            // "database is locked" while the pool's first connections settle the journal mode of a just-written file is a known
+            // transient of the set-up, not the judged outcome: try again (both sides)
+            let _ = id;
+            let mut attempt = 0;
+            let (ret, cb) = loop {
+                let id = new_cb_id();
+                let ret = unsafe { askar_store_open(uri.ptr, method.ptr, pass.ptr, std::ptr::null(), if cb_given { Some(cb_handle) } else { None }, id) };
+                let (ret, cb) = run.finish(i, op, ret, id, cb_given);
+                let is_backend = matches!(&cb, Some(v) if v.code() == 1);
+                if is_backend && attempt < 6 && run.files.contains_key(&of) && std::path::Path::new(uri_s.strip_prefix("sqlite://").unwrap_or("").split('?').next().unwrap_or("")).is_file() {
+                    // (the error text is not read: that would empty the slot a later `current_error` op judges; a real Backend
+                    // error simply comes back each time)
+                    attempt += 1; run.feat("retry:ffi:store_open-backend"); std::thread::sleep(Duration::from_millis(25 * attempt as u64)); continue;
+                }
+                break (ret, cb);
+            };
             if malformed && ret == 0 { run.fail(i, op, "store_open:malformed-args->ret:Success".into(), json!({})); }
             if !malformed && ret != 0 { run.fail(i, op, format!("store_open:valid-args->ret:{}", code_name(ret)), json!({})); }
             let twin_res = if ret == 0 && !malformed && run.twin_ok {
                 let pk = match op["pass"].as_str() { Some(p) => PassKey::from(p.to_string()), None => PassKey::empty() };
-                Some(block_on(async { match Store::open(&twin_s, parsed.clone().unwrap(), pk, None).await { Ok(s) => { s.close().await.ok(); Ok(()) } Err(e) => Err(e) } }))
+                let mut r = Ok(());
+                for k in 0..=6u64 {
+                    r = block_on(async { match Store::open(&twin_s, parsed.clone().unwrap(), pk.clone(), None).await { Ok(s) => { s.close().await.ok(); Ok(()) } Err(e) => Err(e) } });
+                    match &r { Err(e) if e.to_string().contains("database is locked") && k < 6 => std::thread::sleep(Duration::from_millis(25 * (k + 1))), _ => break }
+                }
+                Some(r)
             } else { None };
             match cb {
                 Some(CbVal::Handle(0, nh)) => {
